@@ -461,6 +461,29 @@ func ruleC20Shared(r *Report, la *LockAnalysis, idpFns []*ssa.Function) {
 	}
 	sort.Strings(names)
 	nStores := 0
+	// shared objects the request-time code mutates through a method (a sync.Pool, sync.Map, atomic value kept in a
+	// package-level variable) are shared state just as a stored variable is: outside the guarded-by table, nothing orders
+	// the requests that use them (a buffer handed back to a pool while its bytes are still being written to a client)
+	written := moduleWrittenGlobals(p)
+	for fn := range reach {
+		for _, b := range fn.Blocks {
+			for _, in := range b.Instrs {
+				for _, op := range in.Operands(nil) {
+					if op == nil || *op == nil {
+						continue
+					}
+					g, ok := (*op).(*ssa.Global)
+					if !ok || g.Pkg == nil || g.Pkg.Pkg.Path() != modPath+"/samlidp" {
+						continue
+					}
+					if at, isW := written[g]; isW {
+						nStores++
+						r.Bad("C20.shared-state", fmt.Sprintf("%s: use of the package-level object %s", p.FnName(fn), g.Name()), p.InstrPos(in), "request-time code uses "+g.Name()+", which the library modifies at run time ("+at+") without any lock of the guarded-by table: concurrent requests share it unordered")
+					}
+				}
+			}
+		}
+	}
 	for fn := range reach {
 		pk := fn.Pkg
 		if pk == nil && fn.Parent() != nil {
